@@ -100,6 +100,17 @@ def handle (op : String) (j : Json) : Except String Json := do
         ("metacomments", Json.arr ((ReadOnly.metacomments d none).map jstr).toArray),
         ("measures", jexcept (fun n => Json.num (JsonNumber.fromNat n)) (ReadOnly.measuresCount d)),
         ("spine_types", jexcept (fun l => Json.arr (l.map jstr).toArray) (Export.getSpineTypes d none))])])
+  | "doc.concat" =>
+    let frags ← (← getArr j "frags").toList.mapM (fun x => do pure (← x.getStr?).toList)
+    let sep ← getStr j "sep"
+    let table ← oracleOfJson (← j.getObjVal? "oracle")
+    match Concat.concat (parserOf table) frags sep with
+    | .error e => pure (Json.mkObj [("err", Json.str (errName e))])
+    | .ok (d, pairs) =>
+      pure (Json.mkObj [("ok", Json.mkObj [
+        ("pairs", Json.arr (pairs.map (fun (a, b) => Json.arr #[Json.num (JsonNumber.fromNat a), Json.num (JsonNumber.fromNat b)])).toArray),
+        ("starts", jnats d.starts),
+        ("export", jexcept jstr (Export.exportString d Export.defaultOpts))])])
   | "doc.rows" =>
     let text ← getStr j "text"
     pure (Json.arr ((readRows text).map (fun r => Json.arr (r.map jstr).toArray)).toArray)
